@@ -451,4 +451,24 @@ PROPERTIES = {
             "thorough": {"operations": 80000000, "probes_between_layout_twins": 1600000, "miri_operations": 20000, "asan_operations": 2000000},
         },
     },
+    "C17": {
+        "level": "exploration",
+        "rule": ("flat dotted-key configurations of 1..8 entries over the segment alphabet {a, al, ali, alice, alicent, b, a1, non-ASCII names, x_y} with '<any>' at "
+                 "any depth (also consecutive), entries that address a tested path / a truncated or extended path / a sibling whose name is a prefix, property "
+                 "names of 1..2 segments, unique integer values; 1..4 module paths of depth 1..4. Observed through Cfg::capture_for_into and through a real "
+                 "simulation builder with include_cfg before and after the nodes (and their parents) are created: props_keys and prop_raw values. Oracle = "
+                 "independent matcher (split at '.', '<any>' matches exactly one segment, the rest is the property name, no '<any>' in the name): key sets equal, "
+                 "each value is the value of a matching entry, no panic. Typed reads: random sequences of prop::<u64 / String / bool / Vec<u32> / f64> on four "
+                 "keys: a successful read pins the type, other types must fail, the pinned / natural type stays readable. Non-trivial = case with a wildcard "
+                 "entry and a module that receives something; distinct = hash of the case."),
+        "assumptions": ["keys are quoted YAML strings, values integers"],
+        "stages": [
+            native("cfg", "desmon", "c17", tiers=QT, timeout={"quick": 900, "thorough": 5400}),
+        ],
+        "floor": {
+            "quick": {"module_property_sets_compared": 1000000, "wildcard_entries": 150000, "paths_with_matching_entries": 100000,
+                      "cases_with_non_ascii_names": 50000, "cases_with_prefix_sharing_names": 40000, "typed_reads": 1500},
+            "thorough": {"module_property_sets_compared": 20000000, "wildcard_entries": 3000000, "typed_reads": 30000},
+        },
+    },
 }
